@@ -33,6 +33,21 @@ class Sym:
         m = self.methods.get("__str__")
         return m() if m is not None else self.name
 
+    def __eq__(self, other):
+        # list / tuple comparison, list.index, list.remove ... on modelled objects use the object's own __eq__ when it has one
+        m = self.methods.get("__eq__")
+        if m is None or other is self:
+            return other is self
+        try:
+            return bool(m(other))
+        except Exception:
+            raise
+
+    def __ne__(self, other):
+        return not self.__eq__(other)
+
+    __hash__ = object.__hash__
+
     def __bool__(self):
         # builtins applied to modelled objects (any(), all(), filter(None, ...)) see the object's own truth value
         m = self.methods.get("__bool__")
